@@ -80,6 +80,18 @@ theorem sbs_zero_line_true (l r rows : Nat) (hl : l + 1 ≤ usizeMax) (hr : r + 
 
 example : (3 : Nat) + 1 ≤ usizeMax ∧ (9 : Nat) + 1 ≤ usizeMax := by decide
 
+/-- Side-by-side view, a whole hunk: any sequence of unchanged lines and subhunks (each with its
+    own alignment and rows per line) shows `hunkSpec` — every block starts at the true numbers
+    reached by the blocks before it — and leaves the counters at `start + number of old/new lines`. -/
+theorem sbs_hunk_numbers_true (bs : List Block) (a c : Nat) (hwf : ∀ b ∈ bs, b.wf)
+    (ha : a + totalOld bs + 1 ≤ usizeMax) (hc : c + totalNew bs + 1 ≤ usizeMax) :
+    ∃ rows, runBlocksSbs ⟨a, c⟩ bs = .ok (⟨a + totalOld bs, c + totalNew bs⟩, rows) ∧
+      rows.map SbsRow.shown = (hunkSpec a c bs).map some :=
+  runBlocksSbs_spec bs a c hwf ha hc
+
+example : hunkSpec 5 9 [.zero 2, .sub 1 1 [(some 0, some 0)] [1] [2], .zero 1]
+    = [(some 5, some 9), (none, none), (some 6, some 10), (none, none), (some 7, some 11)] := by decide
+
 /-- Hunk header `@@ -a[,b] +c[,d] @@frag` (any omitted counts, any fragment not starting with `@`):
     the parser returns the fragment and the two `(start, length)` pairs with length 1 for an
     omitted count; the number printed in the hunk-header box is `c`, the start of the new-file
